@@ -106,10 +106,7 @@ let () =
   let out = Buffer.create 65536 in
   (try while true do
     let line = input_line ic in
-<<<<<<< HEAD
     (* side-channel lines ("!VIOL", "!ASSUME", "!INFO") carry no case: the runner reads them itself *)
-=======
->>>>>>> wC05
     if String.length line > 0 && line.[0] <> '!' then begin
       let verdict =
         try
